@@ -42,6 +42,10 @@ TRUSTED_BASE = [
 ]
 
 
+# prefix of an `extract` problem that only says "the translator of the second tie cannot read this source" (tools/rs2lean.py: SUBSET)
+SUBSET_PREFIX = "translator subset (a limitation of the second tie"
+
+
 class Machinery(Exception):
     """Something in the checking machinery itself failed (exit 2)."""
 
@@ -530,6 +534,8 @@ class Verdict:
         self.violations.append((rel, " no-failing-input-found" if no_input else ""))
 
     def emit(self):
+        for n in self.notes:
+            print(n)
         for k in self.known_lines:
             print(f"KNOWN-FINDING: property={self.pid} {k}")
         for rel, suffix in self.violations:
